@@ -145,7 +145,7 @@ def _split_args(text, code, lo, hi):
 def _closure(text, code, lo, hi):
     """text[lo:hi] is `|P| BODY` or `|| BODY`; returns (P, BODY)"""
     s = text[lo:hi]
-    m = re.match(r'\s*\|\s*([A-Za-z_][A-Za-z0-9_]*)?\s*\|\s*', s)
+    m = re.match(r'\s*\|\s*([A-Za-z_][A-Za-z0-9_]*)?\s*(?::[^|]*)?\|\s*', s)
     if not m:
         raise NoRule('closure parameter list %r' % s[:30])
     body = s[m.end():].strip()
